@@ -264,7 +264,7 @@ class PathInit:
 class Tok(SymVal):
     """an arbitrary '/'-free path token, abstracted (DESIGN §2.2 DecTok): emptiness, class of its last
     character, and the (partial) results of Python's int() on the whole token and on token[:-1]."""
-    CORPUS = ["", "0", "1", "44'", "0h", "2147483647", "2147483648", "4294967295", "4294967296", "-1", "-1'",
+    CORPUS = ["", "0", "1", "44'", "0h", "5H", "7'h", "2147483648", "12x", "3 ", "2147483647", "2147483648", "4294967295", "4294967296", "-1", "-1'",
               "2147483647'", "2147483648'", "2147483648h", "x", "'", "h", "1x", "x'", " 5", "+5", "1_0", "0x10", "''",
               "5'", "٣", "1.0", "1e3", "-0'", "00'", "99999999999'"]
 
@@ -275,13 +275,18 @@ class Tok(SymVal):
             return
         self.empty = B.bool(name + "_empty")
         self.last = B.int(name + "_last", 0, 3)          # 0: "'", 1: "h", 2: any other character
+        self.lastcode = B.int(name + "_lastcode", 0, 0x110000)   # code of the last character (if not empty)
+        B.assume(land((self.last == 0) == (self.lastcode == 39), (self.last == 1) == (self.lastcode == 104)))
         self.ok = B.bool(name + "_int_ok")               # int(token) succeeds
         self.val = B.int(name + "_int")
         self.bok = B.bool(name + "_body_int_ok")         # int(token[:-1]) succeeds
         self.bval = B.int(name + "_body_int")
-        # int() never accepts the empty string nor a string ending in ' or h
+        # int() never accepts the empty string nor a string ending in ' or h (nor in any other ASCII letter)
         B.assume(implies(self.empty, lnot(self.ok)))
         B.assume(implies(self.last != 2, lnot(self.ok)))
+        B.assume(implies(lor(land(self.lastcode >= 65, self.lastcode <= 90), land(self.lastcode >= 97, self.lastcode <= 122)), lnot(self.ok)))
+        self._eqs = {}
+        self._B = B
 
     def _concrete(self, B, name):
         """pick a REAL token text (from the model's abstract attributes, or from the corpus when
@@ -303,7 +308,11 @@ class Tok(SymVal):
                 txt = ""
             else:
                 last = int(v.get(name + "_last") or 0) % 3
-                if last == 2:
+                lc = int(v.get(name + "_lastcode") or 0)
+                if last == 2 and not v.get(name + "_int_ok") and 33 <= lc <= 126 and chr(lc) not in "'h":
+                    body = str(int(v.get(name + "_body_int") or 0)) if v.get(name + "_body_int_ok") else "zz"
+                    txt = body + chr(lc)
+                elif last == 2:
                     txt = str(int(v.get(name + "_int") or 0)) if v.get(name + "_int_ok") else "z9z"
                 else:
                     body = str(int(v.get(name + "_body_int") or 0)) if v.get(name + "_body_int_ok") else "zz"
@@ -312,6 +321,7 @@ class Tok(SymVal):
         self.text = txt
         self.empty = txt == ""
         self.last = 2 if not txt else (0 if txt[-1] == "'" else 1 if txt[-1] == "h" else 2)
+        self.lastcode = ord(txt[-1]) if txt else 0
 
         def tryint(x):
             try:
@@ -323,6 +333,35 @@ class Tok(SymVal):
 
     def materialize(self):
         return self.text
+
+    def sym_eq(self, other):
+        """token == literal: a fresh fact constrained by everything the abstraction knows about the literal"""
+        if isinstance(other, Tok):
+            return other is self if other is self else _undecided("equality of two tokens")
+        if not isinstance(other, str):
+            return False
+        if hasattr(self, "text"):
+            return self.text == other
+        if other not in self._eqs:
+            e = z3.Bool(f"{self.name}_is_{other.encode().hex() or 'empty'}")
+
+            def tryint(x):
+                try:
+                    return True, int(x)
+                except ValueError:
+                    return False, 0
+            ok, v = tryint(other)
+            bok, bv_ = tryint(other[:-1])
+            facts = [iff(self.empty, other == "") if True else True, iff(self.ok, ok), iff(self.bok, bok)]
+            if other:
+                facts.append(self.lastcode == ord(other[-1]))
+            if ok:
+                facts.append(self.val == v)
+            if bok:
+                facts.append(self.bval == bv_)
+            self._B.ctx.sink.add(implies(e, land(*facts)))
+            self._eqs[other] = e
+        return self._eqs[other]
 
     def sym_truthy(self, ctx):
         return lnot(self.empty)
@@ -346,6 +385,10 @@ class Tok(SymVal):
         return self.val
 
 
+def _undecided(msg):
+    raise Undecided(msg)
+
+
 class TokBody(SymVal):
     def __init__(self, tok):
         self.tok = tok
@@ -367,6 +410,8 @@ class TokLast(SymVal):
                 r.append(self.tok.last == 0)
             elif ch == "h":
                 r.append(self.tok.last == 1)
+            elif isinstance(ch, str) and len(ch) == 1:
+                r.append(self.tok.lastcode == ord(ch))
             else:
                 raise Undecided("TokLast membership")
         return lor(*r)
